@@ -17,14 +17,28 @@ const vc19Mon = "TestVerifC19SoundnessCount"
 func TestVerifC19SoundnessCount(t *testing.T) {
 	lib.Mandatory("invalid-injected:honest-prover", "invalid-rejected:honest-prover", "raw-valid-accepted:count",
 		"invalid:honest-prover:count:non-bit", "invalid:honest-prover:count:random-vector")
-	shares := []uint8{2, 3, 4, 5}
+	shares := []uint8{2, 3, 4, 5, 9}
 	if lib.Thorough() {
 		shares = append(shares, 8, 16, 100, 255)
 	}
-	reps := lib.Scale(12, 60)
-	lib.Par(len(shares)*reps, func(i int) {
-		n := shares[i/reps]
-		r := lib.NewRng(fmt.Sprintf("c19/wb/count/%d", n), i%reps)
+	reps := lib.Scale(100, 400)
+	type job struct {
+		n uint8
+		k int
+	}
+	var jobs []job
+	for _, n := range shares {
+		rp := reps
+		if n > 16 {
+			rp = reps / 10 // cost grows linearly with the number of aggregators
+		}
+		for k := 0; k < rp; k++ {
+			jobs = append(jobs, job{n, k})
+		}
+	}
+	lib.Par(len(jobs), func(i int) {
+		n := jobs[i].n
+		r := lib.NewRng(fmt.Sprintf("c19/wb/count/%d", n), jobs[i].k)
 		ctx := r.Bytes(r.Intn(20))
 		spec := drv.SpecCount(ctx)
 		p, err := prio3.New(&drv.Raw[bool, uint64, *flpCount, Vec, Fp]{Inner: newFlpCount()}, spec.AlgID, n, ctx)
